@@ -176,6 +176,15 @@ pub fn check_value(v: &Value, quick: bool, cnt: &Cnt) -> Vec<(String, String)> {
         Err(p) => Err(format!("panic: {p}")),
     };
     let mut f = agree::<Value, _>("value", &shape, &trunc(&format!("{:?}", v)), &enc, size, quick, cnt, |a, b| a == b);
+    // the widest spec-valid encoding of the same value: the readers must agree on it as well
+    let rv = corpus::value_to_rval(v);
+    if rv.well_formed().is_ok() && crate::c05::array_of_compound(v).is_none() && !crate::c05::zero_width_array(v) {
+        let wenc = refamqp::encode_widest(&rv);
+        if wenc != enc {
+            let fw = agree::<Value, _>("value(widest)", &shape, &trunc(&format!("{:?}", v)), &wenc, Ok(wenc.len()), true, cnt, |a, b| a == b);
+            f.extend(fw);
+        }
+    }
     // to_value is the identity on Value; from_value::<Value> too
     match catch(|| serde_amqp::to_value(v)) {
         Ok(Ok(tv)) => {
@@ -223,6 +232,52 @@ impl Visitor for TypedC20 {
         // chunked-reader sweep on a subset of masks only (cost), always for small types
         let quick = self.quick || mask % 7 != 0;
         let mut f = agree::<T, _>("typed", ty, &dbg(item), &enc, size, quick, &self.cnt, |a, b| dbg(a) == dbg(b));
+        // reference-encoded variants of the same item (descriptor by code / by symbol, narrowest / widest):
+        // slice and stream readers must agree on each of them too, for the concrete type and for the
+        // descriptor-peeking enums
+        for (label, venc) in crate::c05::composite_variants(_e) {
+            if !label.starts_with("defaults-null,multi-array,trailing-elided") {
+                continue;
+            }
+            let a = catch(|| serde_amqp::from_slice::<T>(&venc));
+            let mut with_trailer = venc.clone();
+            with_trailer.extend_from_slice(&trailer());
+            for k in [1usize, 2, 3, 5, 8, venc.len().saturating_sub(1).max(1), venc.len() + 3, 4096] {
+                let mut rd = Chunked { data: &with_trailer, pos: 0, k };
+                self.cnt.reads.fetch_add(1, Ordering::Relaxed);
+                let b = catch(|| serde_amqp::from_reader::<T>(&mut rd));
+                let same = match (&a, &b) {
+                    (Ok(Ok(x)), Ok(Ok(y))) => dbg(x) == dbg(y) && rd.pos == venc.len(),
+                    (Ok(Err(_)), Ok(Err(_))) => true,
+                    (Err(_), Err(_)) => true,
+                    _ => false,
+                };
+                if !same {
+                    f.push((
+                        format!("slice-vs-chunked-reader typed {ty} [{label}]"),
+                        format!(
+                            "chunk={k}: valid encoding {}: slice -> {:?}, reader -> {:?} (consumed {} of {})",
+                            hex(&venc),
+                            a.as_ref().map(|r| r.as_ref().map(dbg).map_err(|e| e.to_string())),
+                            b.as_ref().map(|r| r.as_ref().map(dbg).map_err(|e| e.to_string())),
+                            rd.pos,
+                            venc.len()
+                        ),
+                    ));
+                    break;
+                }
+            }
+            let ws = typed::wrapper_decodes(ty, &venc, &dbg(item), false);
+            let wr = typed::wrapper_decodes(ty, &with_trailer, &dbg(item), true);
+            for ((w, _, x), (_, _, y)) in ws.into_iter().zip(wr) {
+                if x.is_ok() != y.is_ok() || (x.is_ok() && x != y) {
+                    f.push((
+                        format!("slice-vs-reader typed {ty} as {w} [{label}]"),
+                        format!("valid encoding {}: slice -> {:?}, reader -> {:?}", hex(&venc), x, y),
+                    ));
+                }
+            }
+        }
         // typed -> Value tree -> typed   vs   typed -> bytes -> typed
         match catch(|| serde_amqp::to_value(item)) {
             Ok(Ok(tree)) => {
@@ -597,6 +652,13 @@ fn replay(ctx: &Ctx, p: &std::path::Path, mut out: Outcome) -> Outcome {
             let mut o2 = Outcome::new("exploration");
             let _ = frame_payload_cases(ctx, &mut o2);
             out.violations = o2.violations;
+        }
+        Some("typed-sweep") => {
+            let tv = TypedC20 { quick: false, cnt: Cnt { reads: AtomicU64::new(0) } };
+            for (s, d, _) in typed::replay_sweep(&tv, r) {
+                println!("  FAIL {s}: {d}");
+                out.violation(s, d, r.clone());
+            }
         }
         _ => out.machinery_errors.push("replay: unknown kind".into()),
     }
